@@ -1,5 +1,151 @@
 package main
 
-import "golang.org/x/tools/go/ssa"
+// Candidate loop invariants from syntax, filtered to the largest inductive subset (Houdini).
 
-func inferInvariants(ctx *Ctx, fn *ssa.Function, opt *EncOpts, timeoutMs int) {}
+import (
+	"fmt"
+	"go/ast"
+	"go/token"
+	"go/types"
+
+	"golang.org/x/tools/go/ssa"
+)
+
+func candidateInvariants(ctx *Ctx, fn *ssa.Function) []*Clause {
+	syn := fn.Syntax()
+	if syn == nil {
+		return nil
+	}
+	var body *ast.BlockStmt
+	switch n := syn.(type) {
+	case *ast.FuncDecl:
+		body = n.Body
+	case *ast.FuncLit:
+		body = n.Body
+	}
+	if body == nil {
+		return nil
+	}
+	var out []*Clause
+	ord := 0
+	add := func(loop int, text string, pos token.Pos) {
+		f, err := parseFormula(text)
+		if err != nil {
+			return
+		}
+		p := ctx.fset.Position(pos)
+		out = append(out, &Clause{Kind: "invariant", F: f, Text: text, Loop: loop, Auto: true, File: p.Filename, Line: p.Line, Tags: []string{"auto"}})
+	}
+	simple := func(e ast.Expr) bool {
+		switch x := e.(type) {
+		case *ast.Ident:
+			return true
+		case *ast.SelectorExpr:
+			_, ok := x.X.(*ast.Ident)
+			return ok
+		case *ast.BasicLit:
+			return true
+		case *ast.CallExpr:
+			if id, ok := x.Fun.(*ast.Ident); ok && (id.Name == "len" || id.Name == "int" || id.Name == "uint32" || id.Name == "uint" || id.Name == "uint64") && len(x.Args) == 1 {
+				switch a := x.Args[0].(type) {
+				case *ast.Ident:
+					return true
+				case *ast.SelectorExpr:
+					_, ok := a.X.(*ast.Ident)
+					return ok
+				}
+			}
+		}
+		return false
+	}
+	ast.Inspect(body, func(n ast.Node) bool {
+		switch s := n.(type) {
+		case *ast.FuncLit:
+			return false
+		case *ast.ForStmt:
+			ord++
+			var iv string
+			if as, ok := s.Init.(*ast.AssignStmt); ok && len(as.Lhs) == 1 && len(as.Rhs) == 1 {
+				if id, ok := as.Lhs[0].(*ast.Ident); ok {
+					iv = id.Name
+					if simple(as.Rhs[0]) {
+						add(ord, fmt.Sprintf("%s >= %s", iv, types.ExprString(as.Rhs[0])), s.Pos())
+					}
+				}
+			}
+			if be, ok := s.Cond.(*ast.BinaryExpr); ok {
+				if id, ok := be.X.(*ast.Ident); ok && simple(be.Y) {
+					switch be.Op {
+					case token.LSS:
+						add(ord, fmt.Sprintf("%s <= %s", id.Name, types.ExprString(be.Y)), s.Pos())
+					case token.LEQ:
+						add(ord, fmt.Sprintf("%s <= %s + 1", id.Name, types.ExprString(be.Y)), s.Pos())
+					case token.GTR, token.GEQ:
+						add(ord, fmt.Sprintf("%s >= %s - 1", id.Name, types.ExprString(be.Y)), s.Pos())
+					}
+					if iv == "" {
+						add(ord, fmt.Sprintf("%s >= 0", id.Name), s.Pos())
+					}
+				}
+			}
+		case *ast.RangeStmt:
+			ord++
+			add(ord, fmt.Sprintf("0 <= idx(%d)", ord), s.Pos())
+			if simple(s.X) {
+				if tv, ok := ctx.pkgs[fn.Pkg.Pkg.Path()].TypesInfo.Types[s.X]; ok && isSliceLike(tv.Type) {
+					add(ord, fmt.Sprintf("idx(%d) <= len(%s)", ord, types.ExprString(s.X)), s.Pos())
+				}
+			}
+		}
+		return true
+	})
+	return out
+}
+
+func inferInvariants(ctx *Ctx, fn *ssa.Function, opt *EncOpts, timeoutMs int) {
+	key := ctx.funcKey(fn)
+	cands := candidateInvariants(ctx, fn)
+	if len(cands) == 0 {
+		return
+	}
+	if timeoutMs > 3000 {
+		timeoutMs = 3000
+	}
+	for round := 0; round < 8 && len(cands) > 0; round++ {
+		opt.Cand[key] = cands
+		res := ctx.verifyFunc(fn, opt)
+		if len(res.Fatal) > 0 {
+			opt.Cand[key] = nil
+			return
+		}
+		isCand := map[*Clause]bool{}
+		for _, c := range cands {
+			isCand[c] = true
+		}
+		sel := map[int]bool{}
+		for i, o := range res.Obls {
+			if o.Clause != nil && isCand[o.Clause] {
+				sel[i] = true
+			}
+		}
+		discharge(res, sel, timeoutMs)
+		bad := map[*Clause]bool{}
+		for i := range sel {
+			if res.Obls[i].Status != "unsat" {
+				bad[res.Obls[i].Clause] = true
+			}
+		}
+		if len(bad) == 0 {
+			break
+		}
+		var keep []*Clause
+		for _, c := range cands {
+			if !bad[c] {
+				keep = append(keep, c)
+			}
+		}
+		cands = keep
+	}
+	opt.Cand[key] = nil
+	opt.AutoInv[key] = cands
+}
